@@ -43,7 +43,17 @@ def materialise(case):
             os.symlink("../outside", os.path.join(proj, e))
         else:
             put(e)
-    sd = {"rel": "src", "dotrel": "./src", "abs": src}[case["sd"]]
+    if case["sd"] == "hidden":
+        # the source directory is a dot-directory; a look-alike directory without the dot is a trap
+        os.rename(src, os.path.join(proj, ".src"))
+        os.makedirs(os.path.join(proj, "src"))
+        with open(os.path.join(proj, "src", "trap.rs"), "w") as fh:
+            fh.write(STMT.format(999))
+    elif case["sd"] == "updown":
+        os.makedirs(os.path.join(proj, "proj", "src"))
+        with open(os.path.join(proj, "proj", "src", "trap.rs"), "w") as fh:
+            fh.write(STMT.format(998))
+    sd = {"rel": "src", "dotrel": "./src", "abs": src, "updown": "../proj/src", "hidden": ".src"}[case["sd"]]
     y = "---\nsource_dir: %s\nrust:\n  log_macros:\n" % sd
     for mod, name in MACROS:
         y += "    - module: %s\n      name: %s\n" % (mod, name)
@@ -89,6 +99,8 @@ def run_case(job):
             ap = os.path.normpath(p if os.path.isabs(p) else os.path.join(cwd, p))
             scanned.add(os.path.relpath(ap, proj))
         expected = set(case["expected"])
+        if case["sd"] == "hidden":
+            expected = {(".src" + e[3:]) if e.startswith("src/") else e for e in expected}
         if r1.exit_class in ("panic", "timeout", "signal", "killed"):
             problems.append(("C17", "check terminated abnormally: %s" % r1.exit_class))
         if scanned != expected:
@@ -110,7 +122,7 @@ def run_case(job):
         if elsewhere:
             problems.append(("C15", "edit changed entries outside the project: %s" % sorted(elsewhere)))
         for e in case["layout"]:
-            p = os.path.join(proj, e)
+            p = os.path.join(proj, (".src" + e[3:]) if case["sd"] == "hidden" and e.startswith("src/") else e)
             if e.startswith("src/link") and not os.path.islink(p):
                 problems.append(("C15", "symbolic link %s was replaced" % e))
         if expected:
